@@ -175,6 +175,9 @@ def infeasible_edges(ctx):
     return out
 
 
+from .locks import through_result_adapters
+
+
 def check_failure_release(ck, prog, rule):
     """Every resource spawn acquires (join block, boxed closure, stack mapping, TLS block) is released again on every path
     on which spawn returns an error: a failed spawn leaves nothing behind."""
@@ -203,6 +206,18 @@ def check_failure_release(ck, prog, rule):
                 args = ctx.args(bb)
                 if args and mentions(args[0], ctx.prov, lambda x: x[0] == "call" and x[3] == cr):
                     frees.add(bb)
+            # the release written inside the error closure of `fallible(..).map_err(|e| { release; e })?`: the closure captures the
+            # resource and frees it; it runs exactly on the Err path that follows
+            for bb, t in cfg.calls(lambda t: (t.get("callee") or "").endswith(("Result::<T, E>::map_err", "Result::<T, E>::inspect_err", "Result::<T, E>::or_else"))):
+                a = ctx.args(bb)
+                clo = strip_casts(a[1]) if len(a) == 2 else None
+                if not (isinstance(clo, tuple) and clo[0] == "agg" and isinstance(clo[2], str) and clo[2] in prog.fns):
+                    continue
+                if not any(mentions(cap, ctx.prov, lambda x: x[0] == "call" and x[3] == cr) for cap in (clo[3] or ())):
+                    continue
+                cc = prog.ctx(prog.fns[clo[2]])
+                if any(cc.args(b2) and mentions(cc.args(b2)[0], cc.prov, lambda x: x[0] == "param" and x[1] == 1) for b2, t2 in cc.cfg.calls(is_free)):
+                    frees.add(bb)
             # start after the creator succeeded: for `?`-creators the Continue edge, else the return edge
             t = cfg.term(cr)
             start = t.get("t")
@@ -214,7 +229,9 @@ def check_failure_release(ck, prog, rule):
                     for f in ctx.edge_facts(e):
                         if f[0] == "variant" and f[2] in ("Continue", "Ok"):
                             x = strip_casts(f[1])
-                            if isinstance(x, tuple) and x[0] == "call" and (x[3] == cr or (x[2] and isinstance(strip_casts(x[2][0]), tuple) and strip_casts(x[2][0])[0] == "call" and strip_casts(x[2][0])[3] == cr)):
+                            inner = through_result_adapters(x[2][0]) if isinstance(x, tuple) and x[0] == "call" and x[2] else None   # creator(..).map_err(..)?
+                            if isinstance(x, tuple) and x[0] == "call" and (x[3] == cr or (isinstance(inner, tuple) and inner[0] == "call" and inner[3] == cr) or
+                                                                             (isinstance(through_result_adapters(x), tuple) and through_result_adapters(x)[0] == "call" and through_result_adapters(x)[3] == cr)):
                                 succ_edges.append(e)
             starts = [e.dst for e in succ_edges] or [start]
             r = set()
